@@ -144,7 +144,7 @@ def model_expr(t1, t2, zip_, thr, bidir, always, base, conv_tbl, rem, add, want=
     or base - delta (want='sub'); also renders the payload"""
     appl = "apply" if want == "add" else "sub"
     res = "sx_result" if want == "add" else "sx_sub_result"
-    return ("(let r := run_diff hatom_simple (tbl_udiff %s) (tbl_ops %s) no_paths no_paths %s %s %s in "
+    return ("(let r := run_diff hatom_deep (tbl_udiff %s) (tbl_ops %s) no_paths no_paths %s %s %s in "
             "let cv := tbl_conv %s in "
             "let d := to_delta cv %s %s (tbl_ops %s) %s %s (fst r) (snd r) in "
             "SL [sx_delta d; %s (%s cv (order_by %s fst) (order_by %s fst) d %s)])") % (
@@ -353,7 +353,7 @@ def hyp_expr(t1, t2, zip_, thr, bidir, always, conv_tbl, rem, add, ignore_privat
     """Coq expression (sx) of the three observed hypotheses: guardsb, valid_opsb on every difflib
     opcode list, descending / ascending visiting orders (+ permutation on the paths)"""
     ops = D.coq_ops_table(D.opcode_table(t1, t2))
-    return ("(let r := run_diff hatom_simple (tbl_udiff %s) (tbl_ops %s) no_paths no_paths %s %s %s in "
+    return ("(let r := run_diff hatom_deep (tbl_udiff %s) (tbl_ops %s) no_paths no_paths %s %s %s in "
             "let cv := tbl_conv %s in "
             "let d := to_delta cv %s %s (tbl_ops %s) %s %s (fst r) (snd r) in "
             "sx_hyp (guardsb %s %s %s %s %s) (ops_table_okb %s %s %s) "
@@ -362,3 +362,24 @@ def hyp_expr(t1, t2, zip_, thr, bidir, always, conv_tbl, rem, add, ignore_privat
         conv_tbl, "true" if bidir else "false", "true" if always else "false", ops, V.to_coq(t1), V.to_coq(t2),
         D.coq_cfg(zip_, thr, ignore_private), "true" if bidir else "false", "true" if always else "false",
         V.to_coq(t1), V.to_coq(t2), V.to_coq(t1), V.to_coq(t2), ops, coq_paths(rem), coq_paths(add))
+
+
+# ---- C01: ignore_order payload (index maps) ----
+IO_HDR = HDR[:-1] + " Hash.HashModel DiffIO.DiffIOModel DiffIO.DiffIOShow Delta.DeltaIO Delta.DeltaIOShow."
+
+
+def delta_io_obs(diff):
+    """canonical payload of a Delta built from DeepDiff(ignore_order=True) (mirror of DeltaIOShow.sx_delta_io)"""
+    keys = ("iterable_items_added_at_indexes", "iterable_items_removed_at_indexes")
+    base = {k: v for k, v in diff.items() if k not in keys}
+    maps = []
+    for k, tag in zip(keys, ("addat", "remat")):
+        for p, m in diff.get(k, {}).items():
+            maps.append([tag, parse_pathc(p), sx_sorted([[i, V.canon(x)] for i, x in m.items()])])
+    return [delta_obs(base), sx_sorted(maps)]
+
+
+def model_io_expr(t1, t2, thr, rep, pairs_tbl_coq, conv_tbl, rem, add, base):
+    return "run_dio %s %s %s %s %s %s %s false false %s %s %s" % (
+        D.coq_udiff_table(D.udiff_table(t1, t2)), D.coq_cfg(False, thr), "true" if rep else "false",
+        pairs_tbl_coq, conv_tbl, coq_paths(rem), coq_paths(add), V.to_coq(t1), V.to_coq(t2), V.to_coq(base))
